@@ -1,0 +1,84 @@
+//go:build verif
+
+// Contracts for package partitioning, checked by /verif (govc). Ghost
+// functions and comments only: the verif tag cannot change behaviour.
+package partitioning
+
+func forall(lo, hi int, f func(int) bool) bool {
+	for i := lo; i < hi; i++ {
+		if !f(i) {
+			return false
+		}
+	}
+	return true
+}
+
+// ghostStart is the closed form of the first key group of range i when k key
+// groups are spread over n ranges: the first k%n ranges get one extra group.
+func ghostStart(k, n, i int) int { return i*(k/n) + min(i, k%n) }
+
+// ghostValidKeySpace is the representation invariant of KeySpace: the lookup
+// table sends every key group to a range that contains it.
+func ghostValidKeySpace(s *KeySpace) bool {
+	return s.keyGroupCount >= 1 && s.keyGroupCount <= 65535 && len(s.keyGroupRanges) >= 1 &&
+		len(s.rangeLookup) == int(s.keyGroupCount) &&
+		forall(0, int(s.keyGroupCount), func(g int) bool {
+			return int(s.rangeLookup[g]) < len(s.keyGroupRanges) &&
+				s.keyGroupRanges[s.rangeLookup[g]].Start <= g && g < s.keyGroupRanges[s.rangeLookup[g]].End
+		})
+}
+
+//@ func keyGroupRanges
+//@   property C05 C06
+//@   requires keyGroupCount >= 1 && rangeCount >= 1
+//@   ensures len(result) == rangeCount
+//@   ensures forall(0, rangeCount, func(j int) bool { return result[j].Start == ghostStart(keyGroupCount, rangeCount, j) && result[j].End == ghostStart(keyGroupCount, rangeCount, j+1) })
+//@   ensures result[0].Start == 0 && result[rangeCount-1].End == keyGroupCount
+//@   ensures forall(0, rangeCount-1, func(j int) bool { return result[j].End == result[j+1].Start })
+//@   ensures forall(0, rangeCount, func(j int) bool { return 0 <= result[j].Start && result[j].Start <= result[j].End && result[j].End <= keyGroupCount })
+//@   ensures forall(0, rangeCount, func(j int) bool { return result[j].End - result[j].Start == keyGroupCount/rangeCount || result[j].End - result[j].Start == keyGroupCount/rangeCount + 1 })
+//@   ensures forall(0, rangeCount, func(j int) bool { return result[j].Start < result[j].End ==> j < keyGroupCount })
+//@   loop 0:
+//@     invariant len(ranges) == rangeCount && biggerRangeCount == keyGroupCount%rangeCount && minKGInRange == keyGroupCount/rangeCount
+//@     invariant kgIndex == ghostStart(keyGroupCount, rangeCount, i)
+//@     invariant forall(0, i, func(j int) bool { return ranges[j].Start == ghostStart(keyGroupCount, rangeCount, j) && ranges[j].End == ghostStart(keyGroupCount, rangeCount, j+1) })
+
+//@ func NewKeySpace
+//@   property C05
+//@   panics when keyGroupCount < 1 || keyGroupCount > 65535 || keyGroupRangeCount < 1
+//@   ensures ghostValidKeySpace(result)
+//@   ensures int(result.keyGroupCount) == keyGroupCount && len(result.keyGroupRanges) == keyGroupRangeCount
+//@   ensures forall(0, keyGroupRangeCount, func(j int) bool { return result.keyGroupRanges[j].Start == ghostStart(keyGroupCount, keyGroupRangeCount, j) && result.keyGroupRanges[j].End == ghostStart(keyGroupCount, keyGroupRangeCount, j+1) })
+//@   loop 0:
+//@     invariant len(rangeLookup) == keyGroupCount && len(kgRanges) == keyGroupRangeCount
+//@     invariant forall(0, keyGroupRangeCount, func(j int) bool { return kgRanges[j].Start == ghostStart(keyGroupCount, keyGroupRangeCount, j) && kgRanges[j].End == ghostStart(keyGroupCount, keyGroupRangeCount, j+1) })
+//@     invariant forall(0, ghostStart(keyGroupCount, keyGroupRangeCount, i), func(g int) bool { return int(rangeLookup[g]) < keyGroupRangeCount && kgRanges[rangeLookup[g]].Start <= g && g < kgRanges[rangeLookup[g]].End })
+//@   loop 1:
+//@     invariant len(rangeLookup) == keyGroupCount && r.Start <= j && j <= max(r.End, r.Start)
+//@     invariant forall(0, ghostStart(keyGroupCount, keyGroupRangeCount, i), func(g int) bool { return int(rangeLookup[g]) < keyGroupRangeCount && kgRanges[rangeLookup[g]].Start <= g && g < kgRanges[rangeLookup[g]].End })
+//@     invariant forall(r.Start, j, func(g int) bool { return int(rangeLookup[g]) == i })
+//@     decreases r.End - j
+
+//@ func KeySpace.KeyGroup
+//@   property C05
+//@   requires ghostValidKeySpace(s)
+//@   ensures int(result) < int(s.keyGroupCount)
+//@   ensures uint32(result) == murmur.Hash(key, 0) % s.keyGroupCount
+
+//@ func KeySpace.RangeIndex
+//@   property C05
+//@   requires ghostValidKeySpace(s)
+//@   ensures 0 <= result && result < len(s.keyGroupRanges)
+//@   ensures s.keyGroupRanges[result].IncludesKeyGroup(KeyGroup(murmur.Hash(key, 0) % s.keyGroupCount))
+
+//@ func KeyGroupRange.IncludesKeyGroup
+//@   property C05
+//@   ensures result == (r.Start <= int(kg) && int(kg) < r.End)
+
+//@ func KeyGroupRange.Overlaps
+//@   property C05 C06
+//@   ensures result == (other.Start < r.End && other.End > r.Start)
+
+//@ func KeyGroupRange.Contains
+//@   property C05 C06
+//@   ensures result == (other.Start >= r.Start && other.End <= r.End)
